@@ -96,7 +96,8 @@ impl Num {
 
     pub(crate) fn length(&self) -> Self {
         match self {
-            Self::Int(i) => Self::Int(i.abs()),
+            // the absolute value of the smallest integer does not fit into a machine integer
+            Self::Int(i) => int_or_big(i.checked_abs(), [*i], |[x]| -x),
             Self::BigInt(i) => match i.sign() {
                 Sign::Plus | Sign::NoSign => Self::BigInt(i.clone()),
                 Sign::Minus => Self::BigInt(BigInt::from(i.magnitude().clone()).into()),
